@@ -176,21 +176,49 @@ def _constraint(cond, truth, consts, taken):
     return None
 
 
-def find_feasible_path_avoiding(fn, is_event, is_target, start=None, cut_edge=None, cap=20000):
+def _lv_text(n):
+    x = n.strip_casts() if n is not None else None
+    if x is None:
+        return None
+    if x.k == "DeclRefExpr" and x.get("dk") in ("local", "param"):
+        return "%s#%s" % (x.name, x.get("d"))
+    if x.k == "MemberExpr" and x.c:
+        b = _lv_text(x.c[0])
+        return None if b is None else b + ("->" if x.get("arrow") else ".") + x.name
+    return None
+
+
+def _eq_constraint(cond, truth):
+    """(lvalue text, constant, is_equal) for `X == c` / `X != c` outcomes, else None."""
+    c, truth = _leaf(cond, truth)
+    if c is None or c.k != "BinaryOperator" or c.op not in ("==", "!="):
+        return None
+    l, r = c.c[0], c.c[1]
+    if r.cv is None and l.cv is not None:
+        l, r = r, l
+    t = _lv_text(l)
+    if t is None or r.cv is None:
+        return None
+    return t, r.cv, (c.op == "==") == truth
+
+
+def find_feasible_path_avoiding(fn, is_event, is_target, start=None, cut_edge=None, cap=20000, enums=None):
     """find_path_avoiding, but a path is dropped as soon as one of its branch outcomes contradicts an
-    earlier one about the sign of an unmodified scalar local (`n > 0` false, later `i < n` true with
-    i == 0). Facts die when the variable is assigned. Returns (path or None, capped)."""
+    earlier one: about the sign of an unmodified scalar local (`n > 0` false, later `i < n` true with
+    i == 0), or about the value of an unmodified lvalue compared with constants (`r != OK` true, later the
+    `case OK:` arm of a switch over r). Facts die when the variable is assigned. Returns (path or None,
+    capped)."""
     from ..util import is_assign
     cfg = fn.cfg
     taken = _tracked(fn)
     if start is None:
         start = (cfg.entry, 0)
     seen = set()
-    stack = [(start[0], start[1], (start[0],), frozenset(), frozenset())]
+    stack = [(start[0], start[1], (start[0],), frozenset(), frozenset(), frozenset())]
     steps = 0
     while stack:
-        bid, idx, path, pos, consts = stack.pop()
-        key = (bid, idx, pos, consts)
+        bid, idx, path, pos, consts, eqs = stack.pop()
+        key = (bid, idx, pos, consts, eqs)
         if key in seen:
             continue
         seen.add(key)
@@ -199,6 +227,7 @@ def find_feasible_path_avoiding(fn, is_event, is_target, start=None, cut_edge=No
             return None, True
         B = cfg.blocks[bid]
         posd, constd = dict(pos), dict(consts)
+        eqd = {k_: v_ for k_, v_ in eqs}        # text -> ("eq", c) | ("ne", frozenset)
         blocked = False
         for e in B.elems[idx:]:
             if is_event(e):
@@ -211,6 +240,9 @@ def find_feasible_path_avoiding(fn, is_event, is_target, start=None, cut_edge=No
                     if "d" in d:
                         posd.pop(d["d"], None)
                         constd.pop(d["d"], None)
+                        pre = "%s#%s" % (d["n"], d["d"])
+                        for k_ in [k_ for k_ in eqd if k_ == pre or k_.startswith(pre + ".") or k_.startswith(pre + "->")]:
+                            del eqd[k_]
                         if init is not None and init.cv is not None and d["d"] not in taken:
                             constd[d["d"]] = init.cv
             elif is_assign(e) or (e.k == "UnaryOperator" and e.op in ("++", "--")):
@@ -220,6 +252,16 @@ def find_feasible_path_avoiding(fn, is_event, is_target, start=None, cut_edge=No
                     constd.pop(v, None)
                     if e.k == "BinaryOperator" and e.op == "=" and e.c[1].cv is not None and v not in taken:
                         constd[v] = e.c[1].cv
+                t = _lv_text(e.c[0])
+                if t is not None:
+                    root = t.split(".")[0].split("->")[0]
+                    for k_ in [k_ for k_ in eqd if k_ == t or k_.startswith(t + ".") or k_.startswith(t + "->") or
+                               (k_.split(".")[0].split("->")[0] == root and "->" in k_)]:
+                        del eqd[k_]
+            elif e.k == "CallExpr":
+                # a callee may change what pointers point to
+                for k_ in [k_ for k_ in eqd if "->" in k_]:
+                    del eqd[k_]
         if blocked:
             continue
         for si, s in enumerate(B.succs):
@@ -228,7 +270,33 @@ def find_feasible_path_avoiding(fn, is_event, is_target, start=None, cut_edge=No
             if cut_edge is not None and cut_edge(B, si):
                 continue
             p2 = posd
-            if B.cond is not None and B.tk != "SwitchStmt" and len(B.succs) == 2:
+            e2 = eqd
+            if B.cond is not None and B.tk == "SwitchStmt":
+                t = _lv_text(B.cond)
+                lab = cfg.blocks[s].label if s in cfg.blocks else None
+                if t is not None and lab is not None and lab.k == "CaseStmt" and lab.c and lab.c[0] is not None and lab.c[0].cv is not None:
+                    cv = lab.c[0].cv
+                    f_ = eqd.get(t)
+                    if f_ is not None and ((f_[0] == "eq" and f_[1] != cv) or (f_[0] == "ne" and cv in f_[1])):
+                        continue
+                    e2 = dict(eqd)
+                    e2[t] = ("eq", cv)
+                elif lab is None or lab.k != "CaseStmt":
+                    # the default edge: not taken when the cases name every enumerator of the switched enum type
+                    ty = (B.cond.strip_casts().t or "").replace("const ", "").replace("enum ", "").strip()
+                    en = (enums or {}).get(ty) or (enums or {}).get(ty[:-2] if ty.endswith("_t") else ty)
+                    labs = set()
+                    for s2 in B.succs:
+                        l2 = cfg.blocks[s2].label if s2 is not None and s2 in cfg.blocks else None
+                        if l2 is not None and l2.k == "CaseStmt" and l2.c and l2.c[0] is not None and l2.c[0].cv is not None:
+                            labs.add(l2.c[0].cv)
+                    vals = set(v_ for _c, v_ in en["consts"]) if isinstance(en, dict) and "consts" in en else (set(en.values()) if en else set())
+                    if vals and vals <= labs and (lab is None or lab.k != "DefaultStmt"):
+                        continue
+                    f_ = eqd.get(t) if t is not None else None
+                    if f_ is not None and f_[0] == "eq" and f_[1] in labs:
+                        continue
+            elif B.cond is not None and len(B.succs) == 2:
                 con = _constraint(B.cond, si == 0, constd, taken)
                 if con is not None:
                     v, val = con
@@ -240,5 +308,19 @@ def find_feasible_path_avoiding(fn, is_event, is_target, start=None, cut_edge=No
                     else:
                         p2 = dict(posd)
                         p2[v] = val
-            stack.append((s, 0, path + (s,), frozenset(p2.items()), frozenset(constd.items())))
+                eqc = _eq_constraint(B.cond, si == 0)
+                if eqc is not None:
+                    t, cv, iseq = eqc
+                    f_ = eqd.get(t)
+                    if f_ is not None:
+                        if f_[0] == "eq" and (f_[1] == cv) != iseq:
+                            continue
+                        if f_[0] == "ne" and iseq and cv in f_[1]:
+                            continue
+                    e2 = dict(eqd)
+                    if iseq:
+                        e2[t] = ("eq", cv)
+                    elif f_ is None or f_[0] == "ne":
+                        e2[t] = ("ne", frozenset((f_[1] if f_ else frozenset()) | {cv}))
+            stack.append((s, 0, path + (s,), frozenset(p2.items()), frozenset(constd.items()), frozenset(e2.items())))
     return None, False
